@@ -19,6 +19,13 @@ UNIT_STR = ["count", "percent", "seconds", "milliseconds", "microseconds", "nano
             "kilobits_per_second", "bits_per_second", "count_per_second"]
 QUANTILES = ["0", "0.5", "0.9", "0.95", "0.99", "0.999", "1"]
 KIND = {"c": "KCounter", "g": "KGauge", "s": "KSummary", "h": "KHistogram"}
+FKIND = {"c": "FCounter", "g": "FGauge", "d": "FDist"}
+MKIND = {"f": "MFull", "p": "MPrefix", "s": "MSuffix"}
+
+
+def gb_of(c):
+    """global set_buckets: explicit, or (older corpus files) whenever bounds are given"""
+    return c.get("gb", 1 if c["buckets"] else 0)
 
 SPECIALS = ['"', "\\", "\n", "\r", ",", "=", "{", "}", "#", ":", " ", "\0", "\t"]
 ALPHA = SPECIALS + ['"', "\\", "\\", "\n", "n", "a", "b", "_", "0", "9", "Z", "\u00e9", "\u0080", "\u2028",
@@ -109,7 +116,9 @@ class C08(Prop):
             "an adversarial alphabet (quote, backslash, LF, CR, ',', '=', '{', '}', '#', ':', space, NUL, TAB, 'n', digits first, U+0080, "
             "U+00E9, U+0301, U+2028, astral), backslash runs of every length 0..6 before every special character, line-forging payloads, "
             "valid identifiers; 25% whole render() outputs: 1..4 families of counters/gauges/histograms, 1..3 label sets each, global labels "
-            "overlapping key labels, 0..2 describe calls with any Unit, unit suffix on/off, buckets on/off. A case is non-trivial if it "
+            "overlapping key labels, 0..2 describe calls with any Unit, unit suffix on/off, global buckets on/off, 0..3 per-metric bucket overrides "
+            "(Matcher::Full/Prefix/Suffix built from raw and sanitised names, their heads/tails, the unit-suffixed family names, and "
+            "non-matching variants). A case is non-trivial if it "
             "satisfies the property's precondition (wf_case: non-empty names, distinct family names) and contains at least one character "
             "outside [a-zA-Z_] or is a rendering; distinct = distinct (case, implementation output)")
     design_ref = "DESIGN.md 4 C08"
@@ -134,7 +143,7 @@ class C08(Prop):
                   "value equals the original only for values without backslashes (C08_escape_faithful_without_backslash); with backslashes the "
                   "look-behind machine is lossy (a pending backslash before LF is reordered or, before a quote, dropped) but always well-formed.")
     assumptions = ["Display of u64/f64 is an oracle: formatted numbers are case data; the generator uses integer-valued doubles below 2^53 and simple bucket bounds, whose Display form python reproduces exactly",
-                   "summary-mode histograms are rendered with no recorded samples (quantile values of the DDSketch are not modelled)",
+                   "histogram keys receive samples only when global buckets are set (then they are certainly Prometheus histograms); under per-metric overrides alone and in summary mode they are rendered with no recorded samples (quantile values of the DDSketch are not modelled)",
                    "HashMap iteration order is unspecified: renderings are compared as multisets of families and of sample lines per family"]
     trusted_extra = ["python UTF-8 decoding of the driver's hex output into code points",
                      "the reading of the Prometheus text format 0.0.4 grammar transcribed in C08/Spec.v (stricter: single spaces, no timestamps, no free comments)"]
@@ -184,8 +193,10 @@ class C08(Prop):
                     unit=rng.pick([None, None] + list(range(17))))
 
     def gen_render(self, rng):
-        on = 1 if rng.chance(1, 2) else 0
-        buckets = rng.pick([[], [], ["1", "5", "10"], ["0.5", "2.5"], ["100"]])
+        on = 1 if rng.chance(2, 3) else 0
+        buckets = rng.pick([[], ["1", "5", "10"], ["1", "5", "10"], ["0.5", "2.5"], ["100"]])
+        gb = 1 if buckets and rng.chance(1, 3) else 0
+        with_ovr = bool(buckets) and rng.chance(3, 4)
         gkeys = [self.adv(rng, 4, nonempty=True) for _ in range(2)]
         globals_ = self.pairs(rng, rng.weighted([(3, 0), (2, 1), (1, 2)]), gkeys)
         fams, snames, hnames = [], set(), set()
@@ -213,11 +224,33 @@ class C08(Prop):
                     elif k == "g":
                         vals = [rng.pick([0, 1, -3, 42, (1 << 52)]) for _ in range(rng.below(3))]
                     else:
-                        vals = [rng.pick([0, 1, 2, 5, 7, 100, 1000]) for _ in range(rng.below(5))] if buckets else []
+                        # samples only when the family is certainly a histogram (global buckets): summary
+                        # quantile values are not modelled
+                        vals = [rng.pick([0, 1, 2, 5, 7, 100, 1000]) for _ in range(rng.below(5))] if gb else []
                     series.append(dict(labels=labels, vals=vals))
                 fams.append(dict(k=k, name=name, descs=descs, series=series))
                 break
-        return dict(t="R", on=on, buckets=buckets, globals=globals_, fams=fams)
+        # per-metric overrides: matching and non-matching Full / Prefix / Suffix matchers built from the
+        # raw and the sanitised names, their heads and tails, the family names (with unit suffix) and noise
+        ovr = []
+        if with_ovr:
+            for _ in range(rng.range(1, 4)):
+                f = rng.pick(fams)
+                raw = f["name"]
+                sn = py_name(raw)
+                unit = f["descs"][0][0] if f["descs"] else None
+                fam = sn + py_unit_suffix(unit)
+                base = rng.pick([raw, sn, raw, sn, fam, py_unit_suffix(unit) or "_x", self.adv(rng, 4)])
+                k = rng.pick("fps")
+                r = rng.below(4)
+                if k == "p" and r == 0 and len(base) > 1:
+                    base = base[:rng.range(1, len(base))]
+                if k == "s" and r == 0 and len(base) > 1:
+                    base = base[rng.range(0, len(base) - 1):]
+                if r == 1:
+                    base = base + rng.pick(["x", "_", "1"])
+                ovr.append([k, base])
+        return dict(t="R", on=on, gb=gb, ovr=ovr, buckets=buckets, globals=globals_, fams=fams)
 
     def gen(self, rng, n):
         cases = []
@@ -241,7 +274,9 @@ class C08(Prop):
             return "L %s %s %s %s %s %s %s %s" % (
                 hx(c["name"]), ps(c["globals"]), ps(c["labels"]), "-" if c["suffix"] is None else c["suffix"],
                 a[0] if a else "-", hx(a[1]) if a else "-", hx(c["value"]), "-" if c["unit"] is None else c["unit"])
-        toks = ["R", str(c["on"]), str(len(c["buckets"]))] + list(c["buckets"]) + [ps(c["globals"]), str(len(c["fams"]))]
+        ovr = c.get("ovr", [])
+        toks = (["R", str(c["on"]), str(gb_of(c)), str(len(c["buckets"]))] + list(c["buckets"]) + [str(len(ovr))]
+                + [x for k, m in ovr for x in (k, hx(m))] + [ps(c["globals"]), str(len(c["fams"]))])
         for f in c["fams"]:
             toks += [f["k"], hx(f["name"]), str(len(f["descs"]))]
             for u, d in f["descs"]:
@@ -259,19 +294,18 @@ class C08(Prop):
     # ------------------------------------------------------------------ Coq side
     def coq_series(self, c, f, s):
         k, vals = f["k"], s["vals"]
-        value, points, ssum, scount = "", [], "", ""
+        value, points, bks, ssum, scount = "", [], [], "", ""
         if k == "c":
             value = str(sum(vals) % (1 << 64))
         elif k == "g":
             value = fmt_float(vals[-1]) if vals else "0"
-        elif c["buckets"]:
-            points = [(fmt_float(b), str(sum(1 for v in vals if v <= float(b)))) for b in c["buckets"]]
-            ssum, scount = fmt_float(sum(vals)), str(len(vals))
         else:
+            # both readings of the distribution; the model decides which one is rendered
             points = [(q, "0") for q in QUANTILES]
-            ssum, scount = "0", "0"
-        return "{| s_labels := %s; s_value := %s; s_points := %s; s_sum := %s; s_count := %s |}" % (
-            cq_pairs(s["labels"]), cq_str(value), cq_pairs(points), cq_str(ssum), cq_str(scount))
+            bks = [(fmt_float(b), str(sum(1 for v in vals if v <= float(b)))) for b in c["buckets"]]
+            ssum, scount = fmt_float(sum(vals)), str(len(vals))
+        return "{| s_labels := %s; s_value := %s; s_points := %s; s_buckets := %s; s_sum := %s; s_count := %s |}" % (
+            cq_pairs(s["labels"]), cq_str(value), cq_pairs(points), cq_pairs(bks), cq_str(ssum), cq_str(scount))
 
     def coq_case(self, c):
         t = c["t"]
@@ -290,14 +324,14 @@ class C08(Prop):
                 cq_str(c["value"]), cq_unit(c["unit"]))
         fams = []
         for f in c["fams"]:
-            k = f["k"] if f["k"] != "d" else ("h" if c["buckets"] else "s")
             d = f["descs"][0] if f["descs"] else None
             fams.append("{| f_kind := %s; f_name := %s; f_desc := %s; f_series := %s |}" % (
-                KIND[k], cq_str(f["name"]),
+                FKIND[f["k"]], cq_str(f["name"]),
                 cq_opt(None if d is None else cq_pair(cq_str(d[1]), cq_unit(d[0]))),
                 cq_list([self.coq_series(c, f, s) for s in f["series"]])))
-        return "(CRender %s {| unit_on := %s; globals := %s; fams := %s |})" % (
-            cq_bool(FX), cq_bool(c["on"] == 1), cq_pairs(c["globals"]), cq_list(fams))
+        ovr = cq_list([cq_pair(MKIND[k], cq_str(m)) for k, m in c.get("ovr", [])])
+        return "(CRender %s {| unit_on := %s; gbuckets := %s; overrides := %s; globals := %s; fams := %s |})" % (
+            cq_bool(FX), cq_bool(c["on"] == 1), cq_bool(gb_of(c) == 1), ovr, cq_pairs(c["globals"]), cq_list(fams))
 
     def coq_out(self, c, out):
         if isinstance(out, dict):
@@ -346,7 +380,10 @@ class C08(Prop):
             fams = c["fams"]
             for i in range(len(fams)):
                 cands.append(dict(c, fams=fams[:i] + fams[i + 1:]))
-            if c["buckets"]:
+            ovr = c.get("ovr", [])
+            for i in range(len(ovr)):
+                cands.append(dict(c, ovr=ovr[:i] + ovr[i + 1:]))
+            if len(c["buckets"]) > 1:
                 cands.append(dict(c, buckets=c["buckets"][:1]))
             for i, f in enumerate(fams):
                 def withf(f2):
